@@ -21,6 +21,7 @@ func main() {
 	verif := flag.String("verif", "/verif", "verif root")
 	infer := flag.String("infer", "", "print must-pass atoms for handlers of a module (or 'all')")
 	dump := flag.String("dump", "", "dump: handlers|store|bank")
+	mutant := flag.String("mutant", "", "apply a self-test mutant (json) through an overlay and print the rule instances that fire")
 	flag.Parse()
 	seed := 0
 	if s := os.Getenv("VERIF_SEED"); s != "" {
@@ -30,7 +31,21 @@ func main() {
 		*tier = t
 	}
 	t0 := time.Now()
-	prog, err := core.Load(core.LoadConfig{Repo: *repo, Whole: false})
+	var overlay map[string][]byte
+	if *mutant != "" {
+		var err error
+		overlay, err = mutantOverlay(*repo, *mutant)
+		if err != nil {
+			fmt.Println("MUTANT-SKIP\t" + err.Error())
+			os.Exit(0)
+		}
+	}
+	rules.SelfTestHook = func(r *core.Run) { selfTest(r, *repo, *verif) }
+	prog, err := core.Load(core.LoadConfig{Repo: *repo, Whole: *tier == "thorough" && *mutant == "" && *prop != "" && os.Getenv("JKL_NO_WHOLE") == "", Overlay: overlay})
+	if err != nil && *mutant != "" {
+		fmt.Println("MUTANT-NOCOMPILE\t" + strings.SplitN(err.Error(), "\n", 3)[1])
+		os.Exit(0)
+	}
 	if err != nil {
 		fmt.Println("error:", err)
 		if *prop != "" {
@@ -46,7 +61,7 @@ func main() {
 	case *infer != "":
 		doInfer(prog, *infer)
 	case *prop != "":
-		os.Exit(rules.RunProperty(prog, *prop, *tier, seed, *verif))
+		os.Exit(rules.RunProperty(prog, *prop, *tier, seed, *verif, *mutant != ""))
 	default:
 		flag.Usage()
 		os.Exit(2)
